@@ -317,6 +317,16 @@ func keepConv(x *ssa.Convert) string {
 	if size(to) < size(from) && size(to) <= 16 {
 		return "u" + strconv.Itoa(size(to))
 	}
+	// arithmetic done in 8/16/32 bits and widened afterwards wraps before it is widened:
+	// int64((s+1)*4) with s uint32 is not (int64(s)+1)*4
+	if size(to) > size(from) && size(from) <= 32 {
+		if bo, ok := x.X.(*ssa.BinOp); ok {
+			switch bo.Op {
+			case token.ADD, token.SUB, token.MUL, token.SHL:
+				return "w" + strconv.Itoa(size(from))
+			}
+		}
+	}
 	return ""
 }
 
